@@ -80,7 +80,12 @@ func (ctx Context) TokenRevocationAuthnSigAlgs() []goidc.SignatureAlgorithm {
 }
 
 func (ctx Context) ClientAuthnSigAlgs() []goidc.SignatureAlgorithm {
-	return append(ctx.PrivateKeyJWTSigAlgs, ctx.ClientSecretJWTSigAlgs...)
+	// Build a new slice: appending to the configured one would write into its
+	// spare capacity, which is shared by all requests.
+	algs := make([]goidc.SignatureAlgorithm, 0,
+		len(ctx.PrivateKeyJWTSigAlgs)+len(ctx.ClientSecretJWTSigAlgs))
+	algs = append(algs, ctx.PrivateKeyJWTSigAlgs...)
+	return append(algs, ctx.ClientSecretJWTSigAlgs...)
 }
 
 func (ctx Context) clientAuthnSigAlgs(methods []goidc.ClientAuthnType) []goidc.SignatureAlgorithm {
